@@ -8,7 +8,7 @@ from argparse import ArgumentError
 from collections import OrderedDict, abc, defaultdict
 from contextlib import contextmanager, suppress
 from contextvars import ContextVar
-from copy import deepcopy
+from copy import copy, deepcopy
 from enum import Enum
 from functools import partial
 from types import FunctionType, MappingProxyType
@@ -1486,6 +1486,7 @@ def adapt_class_type(
             value["init_args"] = load_value(parser.dump(init_args, **dump_kwargs.get()))
     else:
         if isinstance(dict_kwargs, dict):
+            dict_kwargs = dict(dict_kwargs)  # (entries are moved out of it below: not out of the caller's dict)
             for key in list(dict_kwargs.keys()):
                 if _find_action(parser, key):
                     init_args[key] = dict_kwargs.pop(key)
@@ -1521,9 +1522,11 @@ def adapt_classes_any(val, serialize, instantiate_classes, sub_add_kwargs):
         except Exception:
             return orig_val
     elif isinstance(val, list):
+        val = copy(val)  # (the given container may be the caller's)
         for num, subval in enumerate(val):
             val[num] = adapt_classes_any(subval, serialize, instantiate_classes, sub_add_kwargs)
     elif isinstance(val, dict):
+        val = copy(val)
         for key, subval in val.items():
             val[key] = adapt_classes_any(subval, serialize, instantiate_classes, sub_add_kwargs)
     return val
